@@ -89,12 +89,15 @@ def content(tp, dim, salt=0):
         return [seq, seq[::-1]]
     elif dim == "2x75":
         n, w = 2, 75
+    elif dim in ("2x70", "2x140", "2x69", "2x71"):
+        # writers wrap rows at a fixed width (FASTA: 70): exact multiples and the widths next to them
+        n, w = 2, int(dim[2:])
     else:
         raise ValueError(dim)
     return [[cell(i, j) for j in range(w)] for i in range(n)]
 
 
-DIMS = ["1x1", "1xN", "Nx1", "3x4", "full", "2x75"]
+DIMS = ["1x1", "1xN", "Nx1", "3x4", "full", "2x75", "2x70", "2x140", "2x69", "2x71"]
 
 
 def _join(tp, row):
@@ -480,7 +483,8 @@ def jobs_datasets(tier):
     out = []
     A, B, C = ["a", "b", "c"], ["x", "y", "z", "w"], ["a", "b", "q"]
     specs = []
-    for labels3 in (["tax1", "tax2", "tax3"], [None, None, None], ["taxa", "taxa", "taxa"], ["one", None, "one"]):
+    for labels3 in (["tax1", "tax2", "tax3"], [None, None, None], ["taxa", "taxa", "taxa"], ["one", None, "one"],
+                    ["primate taxa", "primate taxa", "primate taxa"], ["the_taxa", "the_taxa", "the taxa"], ["it's", "it's", "a;b"]):
         for k in (1, 2, 3):
             nss = [{"label": labels3[i], "taxa": [A, B, C][i]} for i in range(k)]
             mats = [{"type": ["dna", "standard", "continuous"][i % 3], "ns": i, "label": "m%d" % i, "salt": i} for i in range(k)]
@@ -506,13 +510,13 @@ def jobs_datasets(tier):
 SCOPES = {
     "roundtrip@types-routes-dims": ("8 data types x every construction route available for the type (from_dict, +unused taxon in the namespace, "
                                     "concatenate, export indices/subset, parsed from hand-written NEXUS x3 / PHYLIP x4 / FASTA x2 / NeXML x2) x "
-                                    "dimensions {1x1, 1xN, Nx1, 3x4, 2 x full symbol set, 2x75} x 11 target variants the type supports; "
+                                    "dimensions {1x1, 1xN, Nx1, 3x4, 2 x full symbol set, 2x75, 2x69, 2x70, 2x71, 2x140} x 11 target variants the type supports; "
                                     "non-trivial = >= 2 rows and >= 2 columns", True),
     "roundtrip@labels": ("26 labels with blanks, underscores, quotes, brackets, punctuation, 10/11-character and non-ASCII labels in the middle row of a "
                          "3x4 matrix (dna, standard, continuous; thorough all types) x all 15 target variants admitting the label (NeXML: XML-safe "
                          "ASCII only), plus field-filling label triples for strict PHYLIP", True),
     "roundtrip@multistate": ("dna/standard/protein matrices parsed from NEXUS with {..} and (..) tokens (sequential and interleaved) x 11 targets", True),
-    "datasets@namespaces<=3": ("data sets with 1-3 namespaces x 4 labelling patterns (distinct, none, equal, mixed) x 5 population patterns x "
+    "datasets@namespaces<=3": ("data sets with 1-3 namespaces x 7 labelling patterns (distinct, none, equal, mixed, equal with a blank, equal with underscore/blank, equal with quote/punctuation) x 5 population patterns x "
                                "{NEXUS default titles, NEXUS suppress_block_titles=False, NeXML cells, NeXML seqs}; non-trivial = >= 2 namespaces", True),
 }
 
